@@ -14,7 +14,7 @@ from common import (NCPU, HarnessError, Rng, cleanup_run_dir, derive, load_known
 from procsim import HEADER_RE, SENTINEL_MTIME, base_env, crc32_hex, run_child, split_driver_output
 
 PREFIXES = ["", "use a;", "use a", "use a;\nuse b;", "// p", "pub struct ImJustHereToConfuse;", "use a; ", " use a;", "use A;", "use a;\n", "\n"]
-PREFIXES_FORMAT = ["", "use a;", "use a;\nuse b;", "// p", "use  a ;", "pub struct   S ;"]
+PREFIXES_FORMAT = ["", "use a;", "use a;\nuse b;", "// p", "use  a ;", "pub struct   S ;", "fn ( {"]
 
 FUTURE_MTIME = 2208988800  # 2040-01-01
 GRAMMAR_MTIMES = {"now": None, "old": 631152000, "future": 2240611200, "same_as_destination": "dest"}
@@ -105,7 +105,7 @@ def gen_history(seed, i, valid, tier):
     ops.append(["run"])
     n = rng.range(3, 14)
     for _ in range(n):
-        k = rng.weighted([("edit_valid", 22), ("edit_bad", 14), ("prefix", 18), ("delete", 10), ("run", 36)])
+        k = rng.weighted([("edit_valid", 22), ("edit_bad", 14), ("prefix", 18), ("delete", 8), ("damage", 5), ("run", 36)])
         if k == "edit_valid":
             # "old": content changes but the file looks older than the destination (cp -p, restored backup, renamed into place)
             ops.append(["edit", rng.below(len(slots)), "valid", rng.below(len(valid)), rng.weighted([("now", 50), ("old", 25), ("future", 10), ("same_as_destination", 15)])])
@@ -117,6 +117,10 @@ def gen_history(seed, i, valid, tier):
             ops.append(["prefix", rng.below(len(prefixes))])
         elif k == "delete":
             ops.append(["delete", rng.below(len(slots))])
+        elif k == "damage":
+            # beyond the stated alphabet: the destination is replaced by something that does NOT start with a complete
+            # header (emptied, cut inside the header, binary, foreign text, line ends converted)
+            ops.append(["damage", rng.below(len(slots)), rng.choice(["empty", "cut", "binary", "foreign", "crlf", "bom"]), rng.range(5, 150)])
         else:
             ops.append(["run"])
     ops.append(["run"])
@@ -303,6 +307,23 @@ def execute_history(cfg, d, valid, scratch, stats=None):
             elif existed:
                 os.unlink(dp)
             events.append(("change" if existed else "nochange", "delete"))
+        elif op[0] == "damage":
+            dp = dests[op[1]]
+            kindd, cut = op[2], op[3]
+            if one_process:
+                # needs the current content: expressed for the script as a fixed replacement (cut/crlf/bom fall back to foreign text)
+                data = {"empty": b"", "binary": b"\x00\xff\xfe\x80 binary \x00" * 20}.get(kindd, b"// hand written file\npub struct Unrelated;\n")
+                script.append("W\t%s\t%s" % (dp, data.hex()))
+                events.append(("change", "damage:%s" % kindd))
+            elif os.path.isfile(dp):
+                old = open(dp, "rb").read()
+                data = {"empty": b"", "cut": old[:cut], "binary": b"\x00\xff\xfe\x80 binary \x00" * 20,
+                        "foreign": b"// hand written file\npub struct Unrelated;\n", "crlf": old.replace(b"\n", b"\r\n"), "bom": b"\xef\xbb\xbf" + old}[kindd]
+                with open(dp, "wb") as f:
+                    f.write(data)
+                events.append(("change", "damage:%s" % kindd))
+            else:
+                events.append(("nochange", "damage:none"))
         elif op[0] == "run":
             if cfg["mode"] == "file" and slots[0].kind == "absent":
                 continue
@@ -654,6 +675,8 @@ def describe(cfg, valid):
             out.append("prefix %r" % prefixes[op[1] % len(prefixes)])
         elif op[0] == "delete":
             out.append("delete destination of %s" % cfg["slots"][op[1]])
+        elif op[0] == "damage":
+            out.append("replace destination of %s by: %s" % (cfg["slots"][op[1]], op[2]))
         else:
             out.append("run")
     return out
